@@ -12,7 +12,8 @@ Require Import V.Model.ClaimThreads.
 Require Import V.Proofs.TailArith.
 Require Import V.Proofs.FragArith.
 Require Import V.Proofs.ExclDefs V.Proofs.ExclPub1 V.Proofs.ExclPub2 V.Proofs.ExclPub3 V.Proofs.ExclPub7.
-Require Import V.Proofs.ExclRd1 V.Proofs.ExclRd2 V.Proofs.ExclRd3 V.Proofs.ExclRd4 V.Proofs.ExclSys.
+Require Import V.Proofs.ExclRd1.
+Require Import V.Proofs.ExclRd2 V.Proofs.ExclRd3 V.Proofs.ExclRd4 V.Proofs.ExclSys.
 From Coq Require Import ZifyBool.
 Open Scope Z_scope.
 
